@@ -539,6 +539,18 @@ class Oracle:
                 probs.append('inode counts %s != %s' % (n, counts))
             if int(kv['M']) != mem:
                 probs.append('memory use %s != %d' % (kv['M'], mem))
+            if 'A' in kv:
+                # blocks held from the allocator: one per leaf, one per inner node of the canonical tree
+                want_b = {}
+                for c, n in counts.items():
+                    if n:
+                        want_b[self.sizes[c]] = want_b.get(self.sizes[c], 0) + n
+                for k in self.m:
+                    b = self.sizes['leaf'] + len(k) // 2 + (len(self.m[k]) // 2 if self.m[k] != '-' else 0)
+                    want_b[b] = want_b.get(b, 0) + 1
+                want_a = ','.join('%dx%d' % (b, want_b[b]) for b in sorted(want_b)) or '-'
+                if kv['A'] != want_a:
+                    probs.append('blocks held from the allocator %s != blocks of the canonical tree %s' % (kv['A'][:120], want_a[:120]))
             cur = [int(x) for x in (kv['G'] + ',' + kv['S']).split(',')]
             if self.prev_counters is not None and any(a < b for a, b in zip(cur, self.prev_counters)):
                 probs.append('growing/shrinking counter decreased')
